@@ -563,7 +563,7 @@ func TestC08(t *testing.T) {
 		"of unsafe.Pointer conversion sites checks that every site is exercised by a cell. intf: OnCollectionIntf on each of the four collection kinds and an item list held by pointer, with 0/1/3 members: " +
 		"members and Count read through the view as on the original, a member appended through the view is seen by the original. Further per cell: the same writes made inside a callback that then fails are seen " +
 		"while it runs and afterwards; one more round with the source naming the viewed type as its own; two views of two values never share memory. lists: every On* helper on an item list (by value and by pointer) of 2 and 3 members of its " +
-		"own type: one call per member, in order, each handed that very member, each write landing on it. non-trivial = the cell returns a view of a different type; distinct by cell")
+		"own type: one call per member, in order, each handed that very member, each write landing on it; with a link in front the list keeps its members; a vocabulary collection holding such members is never answered with a member. non-trivial = the cell returns a view of a different type; distinct by cell")
 	r.Note("only_enumerated_layers", true)
 	r.Note("checkptr", "test binary built with -gcflags=all=-d=checkptr")
 
@@ -701,6 +701,52 @@ func TestC08(t *testing.T) {
 								r.Report("lists", cell, key+"write", fmt.Sprintf("what call #%d wrote is not on member #%d (its mediaType is %q)", k, k, f.String()), cell)
 								break
 							}
+						}
+					}
+				}
+			}
+		}
+		// a vocabulary collection is not an item list: handed to an On* helper it is viewed as what it is (or refused) - the callback
+		// never gets one of its members instead
+		for _, h := range c08Helpers {
+			if !strings.HasPrefix(h.name, "On") {
+				continue
+			}
+			for _, ck := range []string{"Collection", "OrderedCollection", "CollectionPage", "OrderedCollectionPage"} {
+				cell := fmt.Sprintf("%s(*%s holding %s members)", h.name, ck, h.target)
+				if !r.WantCell(cell) {
+					continue
+				}
+				n++
+				r.Case(cell, true, "lists collection="+ck)
+				st := vocab.StructType(h.target)
+				var members []reflect.Value
+				l := ap.ItemCollection{}
+				for k := 0; k < 2; k++ {
+					m := c08Populate(st, k)
+					members = append(members, m)
+					l = append(l, m.Interface().(ap.Item))
+				}
+				cp := reflect.New(vocab.StructType(ck))
+				cp.Elem().FieldByName("ID").SetString("https://example.com/the-collection")
+				cp.Elem().FieldByName("Type").SetString(string(vocab.DefaultType[ck]))
+				for _, fn := range []string{"Items", "OrderedItems"} {
+					if f := cp.Elem().FieldByName(fn); f.IsValid() {
+						f.Set(reflect.ValueOf(l))
+					}
+				}
+				var seen []uintptr
+				c08Inside = func(v interface{}) error { seen = append(seen, reflect.ValueOf(v).Pointer()); return nil }
+				pi := evSafe(func() { _, _ = h.call(cp.Interface().(ap.Item)) })
+				c08Inside = nil
+				if pi != nil {
+					r.Report("lists", cell, "view "+h.name+" collection panic@"+pi.Frame, pi.Value, cell)
+					continue
+				}
+				for _, p := range seen {
+					for k := range members {
+						if p == members[k].Pointer() {
+							r.Report("lists", cell, "view "+h.name+" collection member-instead", fmt.Sprintf("handed a *%s, the callback was run with its member #%d", ck, k), cell)
 						}
 					}
 				}
